@@ -15,6 +15,8 @@ import (
 	"errors"
 	"fmt"
 	"io"
+	"os"
+	"path/filepath"
 	"strings"
 	"sync"
 	"sync/atomic"
@@ -28,24 +30,97 @@ import (
 // ---- exported-scenario shape ----
 
 type Expect struct {
-	Results      []string `json:"results"`
-	ErrID        string   `json:"errid"`
-	MaxSince     int      `json:"maxsince"` // in units of the model's CheckEvery
-	MinDelivered int      `json:"mindelivered"`
-	Same         *bool    `json:"same"` // nocancel family: ExecuteContext must behave like Execute
+	Results      []string       `json:"results"`
+	ErrID        string         `json:"errid"`
+	MaxSince     int            `json:"maxsince"`     // in units of the model's CheckEvery
+	MinDelivered map[string]int `json:"mindelivered"` // per destination, in printed units of the model
+	Same         *bool          `json:"same"`         // nocancel family: ExecuteContext must behave like Execute
 }
 
 type Scenario struct {
-	Fam        string   `json:"fam"`
-	Kinds      []string `json:"kinds"`
-	Phase      string   `json:"phase"`
-	Waiting    string   `json:"waiting"`
-	OpsClass   string   `json:"opsclass"`
-	Printed    int      `json:"printed"`
-	Why        string   `json:"why"`
-	Started    bool     `json:"started"`
-	CheckEvery int      `json:"checkevery"`
-	Expect     Expect   `json:"expect"`
+	Fam        string         `json:"fam"`
+	Kinds      []string       `json:"kinds"`
+	Phase      string         `json:"phase"`
+	Waiting    string         `json:"waiting"`
+	OpsClass   string         `json:"opsclass"`
+	Printed    map[string]int `json:"printed"` // per destination: direct, buffered, file, cmd
+	Pending    map[string]int `json:"pending"` // of which still held in a buffer at the cancellation
+	Why        string         `json:"why"`
+	Started    bool           `json:"started"`
+	CheckEvery int            `json:"checkevery"`
+	Waited     string         `json:"waited"`  // nocancel: the wait that just completed ("none")
+	Outcome    string         `json:"outcome"` // nocancel: what it handed to the program: none, zero, status, signal, fail
+	Expect     Expect         `json:"expect"`
+}
+
+// One printed unit of the model is rendered as unitLines lines "L1".."L3" when
+// it is still pending at the cancellation (fewer than a buffer-full), and as
+// bigLines lines (about 78 KB: more than the 64 KiB buffers of the interpreter
+// and of the harness's bufio.Writer) when the model says the buffer has been
+// written out in between (BufferFull): the tail is pending all the same.
+const (
+	unitLines = 3
+	bigLines  = 12000
+	// how long the reader of a command destination is given to write what it was handed to its file
+	cmdDrainTimeout = 20 * time.Second
+)
+
+var dests = []string{"direct", "buffered", "file", "cmd"}
+
+// destOf names the one destination a scenario prints to ("" if nothing is
+// printed); ok is false when more than one is used (not rendered).
+func destOf(printed map[string]int) (dest string, units int, ok bool) {
+	for _, d := range dests {
+		if printed[d] > 0 {
+			if dest != "" {
+				return "", 0, false
+			}
+			dest, units = d, printed[d]
+		}
+	}
+	return dest, units, true
+}
+
+func destClass(dest string, big bool) string {
+	c := map[string]string{"": "direct", "direct": "direct", "buffered": "bufio", "file": "file", "cmd": "command"}[dest]
+	if big {
+		c += "-over-buffer"
+	}
+	return c
+}
+
+// ---- files of one run ----
+
+// runFiles are the paths a program writes to besides standard output.
+type runFiles struct{ dir, outf, cmdf, mark string }
+
+func newRunFiles() *runFiles {
+	cwd, err := os.Getwd()
+	if err != nil {
+		panic(err)
+	}
+	d, err := os.MkdirTemp(cwd, "c15-")
+	if err != nil {
+		panic(err)
+	}
+	return &runFiles{dir: d, outf: filepath.Join(d, "outf"), cmdf: filepath.Join(d, "cmdf"), mark: filepath.Join(d, "mark")}
+}
+func (f *runFiles) remove() { os.RemoveAll(f.dir) }
+
+// vars gives the program OUTF and CMD.  survive: the command must outlive the
+// kill of its shell by the context (cancel family): the shell forks a reader of
+// the pipe into the background (announcing itself through the marker file) and
+// exits; otherwise a plain `cat > file`, waited for by close.
+func (f *runFiles) vars(survive bool) []string {
+	cmd := "cat > " + f.cmdf
+	if survive {
+		cmd = fmt.Sprintf("exec 3<&0; (echo up > %s; exec cat <&3 > %s) >/dev/null 2>&1 &", f.mark, f.cmdf)
+	}
+	return []string{"OUTF", f.outf, "CMD", cmd}
+}
+func readFile(path string) []byte {
+	b, _ := os.ReadFile(path)
+	return b
 }
 
 // The statement: "at most a fixed small number (about a thousand) of further
@@ -135,6 +210,7 @@ type Obs struct {
 	Ticks     int64 // vtick() calls after the cancellation (wait family)
 	Latency   time.Duration
 	Panic     any
+	NoMarker  bool // the command of a "cmd" destination did not come up (vwait gave up)
 }
 
 func classify(err error) (string, string) {
@@ -164,6 +240,7 @@ type runOpts struct {
 	hooked   bool   // count instructions with the hook (serialised)
 	buffered bool   // Config.Output is a bufio.Writer the interpreter has to flush
 	outside  bool   // wait family: the context is made done from outside, 40 ms after vmark()
+	files    *runFiles
 }
 
 // run executes src once under ExecuteContext and observes it.
@@ -194,6 +271,18 @@ func run(o runOpts) (obs Obs) {
 					panic(abortSentinel{ticks})
 				}
 			}
+		},
+		"vwait": func() {
+			// returns when the command the program prints to is up (its marker file exists)
+			if o.files == nil {
+				return
+			}
+			for t0 := time.Now(); time.Since(t0) < 30*time.Second; time.Sleep(2 * time.Millisecond) {
+				if _, err := os.Stat(o.files.mark); err == nil {
+					return
+				}
+			}
+			obs.NoMarker = true
 		},
 	}
 	prog, err := parser.ParseProgram([]byte(o.src), &parser.ParserConfig{Funcs: funcs})
@@ -281,10 +370,10 @@ func run(o runOpts) (obs Obs) {
 		obs.Result = "hang"
 		mctx.finish()
 	}
-	if bw != nil && obs.Result != "hang" {
-		// what sits in the caller's own bufio.Writer has been delivered to Config.Output
-		bw.Flush()
-	}
+	// Nothing is flushed here: a Config.Output that has a Flush method is flushed by the interpreter when
+	// the call returns (that is how its default, buffered os.Stdout, gets written at all); what is then
+	// still in the bufio.Writer was NOT delivered.
+	_ = bw
 	obs.Out = buf.Bytes()
 	obs.NAtCancel, obs.Since, obs.Ticks = nAt, since, ticks
 	return obs
@@ -301,23 +390,33 @@ var (
 
 const kCancel = 40 // the call of vcancel() at which the context becomes done
 
-func calibrate(src, input string) (calib, bool) {
+func calibrate(src, input string, k int, usesFiles bool) (calib, bool) {
+	key := fmt.Sprintf("%d\x00%s", k, src)
 	calibMu.Lock()
-	c, ok := calibs[src]
+	c, ok := calibs[key]
 	calibMu.Unlock()
 	if ok {
 		return c, true
 	}
 	// two trial runs (cancelled at the same call as the real one) measure the dispatch count at the cancellation
 	// without padding and what one iteration of the padding loop adds
-	a := run(runOpts{src: src, input: input, vars: []string{"K", fmt.Sprint(kCancel), "pad", "0"}, why: "cancel", hooked: true})
-	b := run(runOpts{src: src, input: input, vars: []string{"K", fmt.Sprint(kCancel), "pad", "7"}, why: "cancel", hooked: true})
+	trial := func(pad string) Obs {
+		vars := []string{"K", fmt.Sprint(k), "pad", pad}
+		var f *runFiles
+		if usesFiles {
+			f = newRunFiles()
+			defer f.remove()
+			vars = append(vars, f.vars(true)...)
+		}
+		return run(runOpts{src: src, input: input, vars: vars, why: "cancel", hooked: true, files: f})
+	}
+	a, b := trial("0"), trial("7")
 	if a.NAtCancel == 0 || b.NAtCancel <= a.NAtCancel || (b.NAtCancel-a.NAtCancel)%7 != 0 {
 		return calib{}, false
 	}
 	c = calib{a.NAtCancel, (b.NAtCancel - a.NAtCancel) / 7}
 	calibMu.Lock()
-	calibs[src] = c
+	calibs[key] = c
 	calibMu.Unlock()
 	return c, true
 }
@@ -393,19 +492,34 @@ func Replay(raw json.RawMessage) hx.Outcome {
 	} else if err != nil || len(sc.Kinds) == 0 {
 		return hx.Outcome{Skipped: true, Note: "bad case"}
 	}
-	shape := Shape{sc.Kinds, sc.Waiting, sc.Printed * 3}.Canon(sc.Fam == "nocancel") // one printed line of the model = 3 lines
-	if sc.Waiting != "none" && !haveShell() {
+	dest, units, ok := destOf(sc.Printed)
+	if !ok {
+		return hx.Outcome{Skipped: true, Note: "more than one print destination: not rendered"}
+	}
+	if (sc.Waiting != "none" || dest == "cmd" || (sc.Waited != "" && sc.Waited != "none")) && !haveShell() {
 		return hx.Outcome{Skipped: true, Note: "no usable /bin/sh + sleep: " + shellWhy}
 	}
 	if sc.Fam == "nocancel" {
-		return replayNoCancel(&sc, shape)
+		return replayNoCancel(&sc, dest, units)
 	}
+	// the buffer was written out before the cancellation (BufferFull in the model): more than a buffer-full was printed
+	big := units > 0 && dest != "direct" && sc.Pending[dest] == 0
+	perUnit := unitLines
+	if big {
+		perUnit = bigLines
+	}
+	shape := Shape{Kinds: sc.Kinds, Waiting: sc.Waiting, Printed: units * perUnit, Dest: dest}.Canon(false)
 	src := shape.Source(false)
 	input := shape.Input()
 	inner := shape.Innermost()
-	buffered := len(sc.Kinds)%2 == 0
+	// Config.Output: a bufio.Writer when the scenario prints to buffered standard output; never when a child
+	// shares it (a child's copier and the interpreter writing to one bufio.Writer is C13's matter)
+	buffered := dest == "buffered" || ((dest == "" || dest == "file") && sc.Waiting == "none" && len(sc.Kinds)%2 == 0)
 	limit := int64(sc.Expect.MaxSince)*PollInterval/int64(maxInt(sc.CheckEvery, 1)) + Slack
-	wantLines := sc.Expect.MinDelivered * 3
+	kc := maxInt(kCancel, shape.Printed+10)
+	files := newRunFiles()
+	defer files.remove()
+	fvars := files.vars(true)
 
 	var o Obs
 	prog := src
@@ -415,9 +529,14 @@ func Replay(raw json.RawMessage) hx.Outcome {
 		// instructions is also a bound on calls; how many instructions one loop iteration really is
 		// is not assumed
 		const ipt = int64(1)
-		o = run(runOpts{src: src, input: input, vars: []string{"K", "-1", "pad", "0"}, why: sc.Why, outside: true, buffered: buffered})
+		vars := append([]string{"K", "-1", "pad", "0"}, fvars...)
+		o = run(runOpts{src: src, input: input, vars: vars, why: sc.Why, outside: true, buffered: buffered, files: files})
 		if o.Result == "hang" { // once more, alone
-			o = run(runOpts{src: src, input: input, vars: []string{"K", "-1", "pad", "0"}, why: sc.Why, outside: true, buffered: buffered})
+			files.remove()
+			files = newRunFiles()
+			defer files.remove()
+			vars = append([]string{"K", "-1", "pad", "0"}, files.vars(true)...)
+			o = run(runOpts{src: src, input: input, vars: vars, why: sc.Why, outside: true, buffered: buffered, files: files})
 			if o.Result == "hang" {
 				return hx.Fail("C15/child-wait/not-interrupted/"+sc.Waiting,
 					fmt.Sprintf("ExecuteContext still blocked in the child %v after the context was done", HangTimeout), "return with the context's error", "still running", prog)
@@ -428,20 +547,18 @@ func Replay(raw json.RawMessage) hx.Outcome {
 				fmt.Sprintf("%d loop iterations (each at least one instruction) ran after the child was killed", o.Ticks), fmt.Sprintf("<= %d instructions", limit), o.Ticks*ipt, prog)
 		}
 	default:
-		vars := []string{"K", fmt.Sprint(kCancel), "pad", "0"}
+		vars := append([]string{"K", fmt.Sprint(kc), "pad", "0"}, fvars...)
 		if sc.Started {
-			c, ok := calibrate(src, input)
+			c, ok := calibrate(src, input, kc, dest == "file" || dest == "cmd")
 			if !ok {
 				return hx.Outcome{Skipped: true, Note: "calibration failed"}
 			}
 			target := map[string]int64{"after-poll": 0, "mid": 499, "before-poll": 999}[sc.OpsClass]
 			vars[3] = fmt.Sprint(padFor(c, target))
 		}
-		prog = fmt.Sprintf("# K=%s pad=%s why=%s pre=%v buffered=%v\n%s", vars[1], vars[3], sc.Why, !sc.Started, buffered, src)
-		o = run(runOpts{src: src, input: input, vars: vars, why: sc.Why, pre: !sc.Started, hooked: true, buffered: buffered})
-		if !sc.Started {
-			wantLines = 0 // the context was done before anything ran
-		}
+		prog = fmt.Sprintf("# K=%s pad=%s why=%s pre=%v Config.Output=%s OUTF=outf CMD=%q\n%s", vars[1], vars[3], sc.Why, !sc.Started,
+			map[bool]string{true: "bufio.Writer", false: "unbuffered"}[buffered], fvars[3], src)
+		o = run(runOpts{src: src, input: input, vars: vars, why: sc.Why, pre: !sc.Started, hooked: true, buffered: buffered, files: files})
 		if o.Result == "aborted" {
 			return hx.Fail("C15/poll/not-stopped/"+inner,
 				fmt.Sprintf("still executing %d instructions after the context was done (cancelled at dispatch %d)", o.Since, o.NAtCancel),
@@ -459,6 +576,9 @@ func Replay(raw json.RawMessage) hx.Outcome {
 	if o.Result == "panic" {
 		return hx.Fail("C15/panic/"+inner, fmt.Sprintf("panic: %v", o.Panic), nil, fmt.Sprint(o.Panic), prog)
 	}
+	if o.NoMarker {
+		return hx.Outcome{Skipped: true, Note: "the command the program prints to did not come up within 30 s"}
+	}
 	if !contains(sc.Expect.Results, o.Result) {
 		return hx.Fail(fmt.Sprintf("C15/result/%s/%s", o.Result, innerOrWait(&sc, inner)),
 			"the call did not end with the context's error: "+o.ErrText, sc.Expect.Results, o.Result, prog)
@@ -467,15 +587,70 @@ func Replay(raw json.RawMessage) hx.Outcome {
 		return hx.Fail(fmt.Sprintf("C15/error-identity/%s-instead-of-%s/%s", o.ErrID, sc.Expect.ErrID, innerOrWait(&sc, inner)),
 			"wrong context error: "+o.ErrText, sc.Expect.ErrID, o.ErrID, prog)
 	}
-	if got := linesDelivered(o.Out, wantLines); got < wantLines {
-		w := "direct"
-		if buffered {
-			w = "bufio"
+	// everything printed before the cancellation has been delivered, at every destination
+	for _, d := range dests {
+		want := sc.Expect.MinDelivered[d] * unitLines
+		if d == dest {
+			want = sc.Expect.MinDelivered[d] * perUnit
 		}
-		return hx.Fail("C15/delivery/missing-output/"+w,
-			fmt.Sprintf("%d of the %d lines printed before the cancellation are in Config.Output", got, wantLines), wantLines, string(o.Out), prog)
+		if !sc.Started {
+			want = 0 // the context was done before anything ran
+		}
+		if want == 0 {
+			continue
+		}
+		var got int
+		var where string
+		var content []byte
+		switch d {
+		case "direct", "buffered":
+			content, where = o.Out, "Config.Output"
+			if buffered {
+				where = "the writer underneath the bufio.Writer given as Config.Output"
+			}
+			got = linesDelivered(content, want)
+		case "file":
+			content, where = readFile(files.outf), "the file of print > OUTF"
+			got = linesDelivered(content, want)
+		case "cmd":
+			// the reader writes what it was handed to its file and ends at the end of its input
+			where = "what the command of print | CMD received"
+			content, got = drained(files.cmdf, want)
+			nCmdDestJudged.Add(1)
+		}
+		if got < want {
+			if len(content) > 200 {
+				content = append(content[:200:200], "..."...)
+			}
+			return hx.Fail("C15/delivery/missing-output/"+destClass(d, big && d == dest),
+				fmt.Sprintf("%d of the %d lines printed before the cancellation are in %s when the call has returned", got, want, where), want, string(content), prog)
+		}
 	}
 	return hx.OK(true)
+}
+
+// drained waits until the file holds the first `want` lines (or cmdDrainTimeout passes; once one case
+// has waited that long in vain, later ones wait 2 s only: the signature is established).
+var drainedInVain atomic.Bool
+
+func drained(path string, want int) ([]byte, int) {
+	limit := cmdDrainTimeout
+	if drainedInVain.Load() {
+		limit = 2 * time.Second
+	}
+	var b []byte
+	got := 0
+	for t0 := time.Now(); ; time.Sleep(3 * time.Millisecond) {
+		b = readFile(path)
+		got = linesDelivered(b, want)
+		if got >= want {
+			return b, got
+		}
+		if time.Since(t0) > limit {
+			drainedInVain.Store(true)
+			return b, got
+		}
+	}
 }
 
 func innerOrWait(sc *Scenario, inner string) string {
@@ -486,47 +661,113 @@ func innerOrWait(sc *Scenario, inner string) string {
 }
 
 // replayNoCancel: a context that is never cancelled must be invisible.
-func replayNoCancel(sc *Scenario, shape Shape) hx.Outcome {
+func replayNoCancel(sc *Scenario, dest string, units int) hx.Outcome {
+	waiting, outcome := sc.Waiting, ""
+	if sc.Waited != "" && sc.Waited != "none" {
+		// the step is a child ending by itself: the program runs through that wait, the child ends as the
+		// scenario says, and what system() / close() hand back is printed
+		waiting = sc.Waited
+		if sc.Outcome != "none" {
+			outcome = sc.Outcome
+		}
+	}
+	shape := Shape{Kinds: sc.Kinds, Waiting: waiting, Printed: units * unitLines, Dest: dest, Outcome: outcome}.Canon(true)
 	src := shape.Source(true)
 	input := ""
 	if shape.UsesRecords() {
 		input = strings.Repeat("r\n", 50)
 	}
-	oc := compareWithExecute(src, input, []string{"K", "-1", "pad", "3"}, shape.Innermost(), sc.Printed*3)
+	class := shape.Innermost()
+	if waiting != "none" {
+		class = waiting
+		if outcome != "" {
+			class += "-" + outcome
+		}
+	}
+	oc := compareWithExecute(src, input, []string{"K", "-1", "pad", "3"}, class, units*unitLines, dest, outcome)
 	if sc.Expect.Same != nil && !*sc.Expect.Same && oc.Fail == nil && !oc.Skipped {
-		return hx.Fail("C15/invisible/unexpectedly-equal/"+shape.Innermost(), "the specification says the two runs differ, they do not", false, true, src)
+		return hx.Fail("C15/invisible/unexpectedly-equal/"+class, "the specification says the two runs differ, they do not", false, true, src)
 	}
 	return oc
 }
 
+// counters of a replay run, reported through Finish (Summary.Extra)
+var nOutcomeJudged, nOutcomeSkipped, nFailJudged, nFailSkipped, nCmdDestJudged atomic.Int64
+
+// Finish adds to the summary how many of the cases that depend on the
+// environment producing a certain child ending were judged / skipped.
+func Finish(sum *hx.Summary) {
+	if sum.Extra == nil {
+		sum.Extra = map[string]any{}
+	}
+	sum.Extra["child_ending_judged"] = nOutcomeJudged.Load()
+	sum.Extra["child_ending_skipped"] = nOutcomeSkipped.Load()
+	sum.Extra["wait_failure_judged"] = nFailJudged.Load()
+	sum.Extra["wait_failure_skipped"] = nFailSkipped.Load()
+	sum.Extra["command_destination_judged"] = nCmdDestJudged.Load()
+}
+
+// rcOf extracts what the program printed as `rc` (the value system() / close() returned).
+func rcOf(out []byte) string {
+	for _, ln := range strings.Split(string(out), "\n") {
+		if strings.HasPrefix(ln, "rc ") {
+			return ln[3:]
+		}
+	}
+	return ""
+}
+
 // compareWithExecute runs src with Execute and with ExecuteContext (a
-// WithCancel context that is never cancelled) on new interpreters; output,
-// exit status and error class must be equal.  wantLines >= 0 additionally
-// checks (as a sanity gate on the scenario binding) that the program printed
-// the number of L-lines the scenario says.
-func compareWithExecute(src, input string, vars []string, class string, wantLines int) hx.Outcome {
+// WithCancel context that is never cancelled) on new interpreters; standard
+// output, the file / command destination, the error stream, exit status and
+// error class must be equal.  wantLines >= 0 additionally checks (as a sanity
+// gate on the scenario binding) that the program printed the number of L-lines
+// the scenario says at destination dest.  outcome != "": the program waits for
+// a child that ends that way and prints the value it is handed; if the
+// environment does not produce that ending under Execute (seen from the value
+// printed), the case is skipped.
+func compareWithExecute(src, input string, vars []string, class string, wantLines int, dest, outcome string) hx.Outcome {
 	type rr struct {
 		out    []byte
+		errs   []byte
+		file   []byte
 		status int
 		res    string
 		text   string
 		pan    any
 	}
 	one := func(useCtx bool) (r rr) {
-		funcs := map[string]any{"vcancel": func() {}, "vmark": func() {}, "vtick": func() {}}
+		funcs := map[string]any{"vcancel": func() {}, "vmark": func() {}, "vtick": func() {}, "vwait": func() {}}
 		prog, err := parser.ParseProgram([]byte(src), &parser.ParserConfig{Funcs: funcs})
 		if err != nil {
 			r.res, r.text = "parse-error", err.Error()
 			return
 		}
 		in, _ := interp.New(prog)
-		var buf outBuf
-		cfg := &interp.Config{Stdin: strings.NewReader(input), Output: &buf, Error: io.Discard, Environ: []string{}, Funcs: funcs, Vars: vars}
+		var buf, ebuf outBuf
+		var out io.Writer = &buf
+		if dest == "buffered" {
+			out = bufio.NewWriterSize(&buf, 1<<16) // flushed by the interpreter, not here
+		}
+		v := vars
+		var files *runFiles
+		if dest == "file" || dest == "cmd" {
+			files = newRunFiles()
+			defer files.remove()
+			v = append(append([]string{}, vars...), files.vars(false)...)
+		}
+		cfg := &interp.Config{Stdin: strings.NewReader(input), Output: out, Error: &ebuf, Environ: []string{}, Funcs: funcs, Vars: v}
 		defer func() {
 			if p := recover(); p != nil {
 				r.pan, r.res = p, "panic"
 			}
-			r.out = buf.Bytes()
+			r.out, r.errs = buf.Bytes(), ebuf.Bytes()
+			switch dest {
+			case "file":
+				r.file = readFile(files.outf)
+			case "cmd":
+				r.file = readFile(files.cmdf)
+			}
 		}()
 		var e error
 		if useCtx {
@@ -542,11 +783,14 @@ func compareWithExecute(src, input string, vars []string, class string, wantLine
 		}
 		return
 	}
+	differ := func(a, b rr) bool {
+		return !bytes.Equal(a.out, b.out) || !bytes.Equal(a.errs, b.errs) || !bytes.Equal(a.file, b.file) || a.status != b.status || a.res != b.res
+	}
 	hookMu.RLock()
 	a, b := one(false), one(true)
 	// Programs with child processes depend on the environment (a fork that fails under load, exec's
 	// WaitDelay): a difference counts only if it shows in three consecutive pairs of runs.
-	for try := 0; try < 2 && a.pan == nil && b.pan == nil && (!bytes.Equal(a.out, b.out) || a.status != b.status || a.res != b.res); try++ {
+	for try := 0; try < 2 && a.pan == nil && b.pan == nil && differ(a, b); try++ {
 		a, b = one(false), one(true)
 	}
 	hookMu.RUnlock()
@@ -556,14 +800,48 @@ func compareWithExecute(src, input string, vars []string, class string, wantLine
 	if a.res == "panic" {
 		return hx.Outcome{Skipped: true, Note: "Execute itself panics (not about contexts)"}
 	}
-	if wantLines >= 0 && linesDelivered(a.out, wantLines) != wantLines {
-		return hx.Fail("C15-MODEL/nocancel/lines", "the generated program does not print the lines the scenario says", wantLines, string(a.out), src)
+	if wantLines >= 0 {
+		where := a.out
+		if dest == "file" || dest == "cmd" {
+			where = a.file
+		}
+		if linesDelivered(where, wantLines) != wantLines {
+			return hx.Fail("C15-MODEL/nocancel/lines", "the generated program does not print the lines the scenario says", wantLines, string(where), src)
+		}
+	}
+	if outcome != "" {
+		// the value classes of Cancel.tla (RetOf): 0 / the status / 256 + signal / -1 with a diagnostic
+		want := map[string]string{"zero": "0", "status": "3", "signal": "265", "fail": "-1"}[outcome]
+		skip := func() {
+			nOutcomeSkipped.Add(1)
+			if outcome == "fail" {
+				nFailSkipped.Add(1)
+			}
+		}
+		if got := rcOf(a.out); got != want {
+			skip()
+			return hx.Outcome{Skipped: true, Note: fmt.Sprintf("under Execute the child did not end as the scenario says (%s): rc=%q, want %s", outcome, got, want)}
+		}
+		if outcome == "fail" && len(a.errs) == 0 {
+			skip()
+			return hx.Outcome{Skipped: true, Note: "under Execute the failed wait left no diagnostic on the error stream"}
+		}
+		nOutcomeJudged.Add(1)
+		if outcome == "fail" {
+			nFailJudged.Add(1)
+		}
 	}
 	if b.res == "panic" {
 		return hx.Fail("C15/invisible/panic/"+class, fmt.Sprintf("ExecuteContext panics where Execute does not: %v", b.pan), a.res, "panic", src)
 	}
 	if !bytes.Equal(a.out, b.out) {
 		return hx.Fail("C15/invisible/output/"+class, "ExecuteContext with a never-cancelled context prints something else than Execute", string(a.out), string(b.out), src)
+	}
+	if !bytes.Equal(a.file, b.file) {
+		return hx.Fail("C15/invisible/redirected-output/"+class, "ExecuteContext with a never-cancelled context writes something else to the file / command than Execute", string(a.file), string(b.file), src)
+	}
+	if !bytes.Equal(a.errs, b.errs) {
+		return hx.Fail("C15/invisible/error-stream/"+class, "ExecuteContext with a never-cancelled context writes something else to Config.Error than Execute", string(a.errs), string(b.errs), src)
 	}
 	if a.status != b.status {
 		return hx.Fail("C15/invisible/status/"+class, "exit status differs between Execute and ExecuteContext", a.status, b.status, src)
@@ -583,7 +861,7 @@ func ReplayOrdinary(raw json.RawMessage) hx.Outcome {
 		return hx.Outcome{Skipped: true, Note: "bad case"}
 	}
 	p := Ordinary[c.I]
-	return compareWithExecute(p.Src, p.In, nil, "ordinary", -1)
+	return compareWithExecute(p.Src, p.In, nil, "ordinary", -1, "", "")
 }
 
 // runWithCtx runs src (hooked) under a context of the caller; counting after
@@ -641,10 +919,10 @@ func runWithCtx(src, input string, ctx context.Context) (obs Obs) {
 // counts the hook observes (diagnostic mode `vreplay C15 probe`).
 func Probe(args []string) int {
 	for _, kinds := range [][]string{{"begin"}, {"action"}, {"pattern"}, {"end", "func", "func"}, {"action", "forin"}, {"begin", "func", "forin", "func"}} {
-		sh := Shape{kinds, "none", 3}.Canon(false)
+		sh := Shape{Kinds: kinds, Waiting: "none", Printed: 3}.Canon(false)
 		src := sh.Source(false)
 		input := sh.Input()
-		c, ok := calibrate(src, input)
+		c, ok := calibrate(src, input, kCancel, false)
 		fmt.Printf("%v calibrated=%v n0=%d perPad=%d\n", kinds, ok, c.n0, c.perPad)
 		for _, t := range []int64{0, 1, 499, 999} {
 			pad := padFor(c, t)
@@ -653,10 +931,10 @@ func Probe(args []string) int {
 				t, pad, o.NAtCancel, o.NAtCancel%PollInterval, o.Since, o.Result, o.ErrID, linesDelivered(o.Out, 3))
 		}
 	}
-	o := run(runOpts{src: Shape{[]string{"begin"}, "none", 0}.Source(false), vars: []string{"K", "40", "pad", "0"}, why: "deadline", pre: true, hooked: true})
+	o := run(runOpts{src: Shape{Kinds: []string{"begin"}, Waiting: "none"}.Source(false), vars: []string{"K", "40", "pad", "0"}, why: "deadline", pre: true, hooked: true})
 	fmt.Printf("done before the call: %d dispatched, result %s/%s\n", o.Since, o.Result, o.ErrID)
 	for _, w := range []string{"system", "piperead", "pipeclose"} {
-		o := run(runOpts{src: Shape{[]string{"begin", "func"}, w, 2}.Source(false), vars: []string{"K", "-1", "pad", "0"}, why: "cancel", outside: true})
+		o := run(runOpts{src: Shape{Kinds: []string{"begin", "func"}, Waiting: w, Printed: 2}.Source(false), vars: []string{"K", "-1", "pad", "0"}, why: "cancel", outside: true})
 		fmt.Printf("blocked in %s: returned %v after the cancellation, %d vtick() calls afterwards, result %s/%s\n", w, o.Latency, o.Ticks, o.Result, o.ErrID)
 	}
 	return 0
